@@ -48,7 +48,7 @@ CLAIMS = {
             "Lean 4 symbolic induction + tier N parity checker + exhaustive differential unit check"),
     "C10": ('proof',
             "Lean 4: C10_total — for EVERY byte string and every legal option combination whose mode (forced or automatic) can represent the input, the trap-instrumented model of QRBuilder::build records no trap (every index, slice, checked subtraction, u8 +=, assert, unreachable, PERCENT_SCORE index, u32 sum of the Rust code is a trap point of the model): composed from the bit-buffer law, structure's bounds, the blank-symbol / scan / sweep checkers, placed-bit count = 8*codewords + remainder (the debug_assert), score bounds and the format writer; C10_total_auto needs no alphabet hypothesis. Real builder run with debug-assertions and overflow-checks on lengths 0..8000, every capacity boundary of the implementation's own table, every byte value in digit/alnum context.",
-            "Trusted: Lean kernel; native_decide for templateOk/scanOk; hand model tied by correspondence incl. a malformed stream that validates the model's traps. Not modelled: stack/heap exhaustion.",
+            "Trusted: Lean kernel; native_decide for templateOk/scanOk; hand model tied by correspondence incl. a malformed stream that validates the model's traps. Not modelled: stack/heap exhaustion — observed instead: long inputs (runs and alternations up to 200000 bytes) are built in child processes, also in an UNOPTIMISED build profile, so that an abort is an outcome.",
             'Lean 4 proof of trap-freedom of an instrumented model (symbolic + tier K/N) + differential run with overflow checks on'),
     "C11": ("proof",
             "Lean 4: C11_documented (proved) — for every version, level and EVERY codeword sequence, with no mask forced the mask "
@@ -85,7 +85,7 @@ CLAIMS = {
             "Trusted: Lean kernel (axioms propext, Classical.choice, Quot.sound); hand model of helpers.rs (35 lines) tied by exact-string correspondence.",
             "Lean 4 symbolic proof (induction over lines) + exact-string differential check on all 40 sizes"),
     "C12": ("proof",
-            "Lean 4 on the model of SvgBuilder: unescape(escape s) = s and the escaped href contains no quote or '<' for EVERY "
+            "Lean 4 on the model of SvgBuilder (custom Shape::Command layers included since round 9: C12_custom_calls / C12_custom_dark — the command is called once per dark module, row-major, at (row+margin, column+margin), with the symbol's own module; C15_custom_labels — on every built symbol that module carries the ISO region label): unescape(escape s) = s and the escaped href contains no quote or '<' for EVERY "
             "image string (C12_unescape_escape, C12_escape_safe, by induction), rgba2hex = #rrggbb / #rrggbbaa, layers = the "
             "shape()/shape_color() calls in order for every setter history (C12_layers, induction over the history); C12_subpaths: "
             "for EVERY matrix, margin and built-in shape the d attribute path() writes for a layer is read by the specification's "
